@@ -881,6 +881,14 @@ def compile_comprehension(compiler, expr, root, parts, final):
     }[root]
     is_for = root == "for"
 
+    def valued(model):
+        # Compile a form that's used for its value. A form without a
+        # value, like `(do)`, counts as `None`.
+        result = compiler.compile(model)
+        if result.expr is None:
+            result += asty.Constant(model, value=None)
+        return result
+
     ctx = nullcontext() if is_for else compiler.scope.create(ScopeGen)
     mac_con = nullcontext() if is_for else compiler.local_state()
     with mac_con, ctx as scope:
@@ -914,12 +922,14 @@ def compile_comprehension(compiler, expr, root, parts, final):
             )
         new_parts = []
         for p in parts:
-            if p.tag in ("if", "do"):
+            if p.tag == "do":
                 tag_value = compiler.compile(p.value)
+            elif p.tag == "if":
+                tag_value = valued(p.value)
             else:
                 tag_value = [
                     compiler._storeize(p.value[0], compiler.compile(p.value[0])),
-                    compiler.compile(p.value[1]),
+                    valued(p.value[1]),
                 ]
                 if not is_for:
                     scope.iterator(tag_value[0])
@@ -939,11 +949,11 @@ def compile_comprehension(compiler, expr, root, parts, final):
             key = elt = None
             if node_class is asty.DictComp:
                 if dict_unpack:
-                    key = compiler.compile(final[1])
+                    key = valued(final[1])
                 else:
-                    key, elt = map(compiler.compile, final)
+                    key, elt = map(valued, final)
             else:
-                elt = compiler.compile(final)
+                elt = valued(final)
 
         ends_with_unpack = not is_for and (dict_unpack or (elt and isinstance(elt.expr, ast.Starred)))
 
@@ -1358,7 +1368,7 @@ def compile_match_expression(compiler, expr, root, subject, clauses):
                         kw_defaults=[],
                         defaults=[],
                     ),
-                    body=guard.stmts + [asty.Return(guard.expr, value=guard.expr)],
+                    body=guard.stmts + [asty.Return(guard, value=guard.force_expr)],
                     decorator_list=[],
                     **({"type_params": []} if PY3_12 else {}),
                 )
